@@ -197,6 +197,9 @@ func checkC08(c *Ctx) {
 	c.include("signer-set", "C17", rulesIn("C17.guards", "C17.key-shape"))
 	c.include("batch-shape", "C10", rulesIn("C10.non-empty", "C10.cap", "C10.counters"))
 	c.include("batch-shape", "C13", rulesIn("C13.older-same-token", "C13.timeout-guard", "C13.cancel-callers"))
+	// an execution report must be processed to the end (a contained panic in the payout arithmetic leaves the
+	// executed batch pending): the payout clauses of C19
+	c.include("batch-shape", "C19", rulesIn("C19.prorata", "C19.clamp", "C19.remainder"))
 
 	// ---- value semantics: what is stamped / wired must reach the object that is stored and used ---------
 	r.Min("C08.value-semantics", 1)
